@@ -500,6 +500,21 @@ def build(tier, seed):
                                                           for x in (o.self.shot_vector.items if isinstance(o.self.shot_vector, PyList) else o.self.shot_vector)])},
                      must_return=lambda o: And(*[trunc_mul(x.shots if isinstance(x, Rec) else x[0], o.scalar) >= 1
                                                  for x in (o.self.shot_vector.items if isinstance(o.self.shot_vector, PyList) else o.self.shot_vector)]))]))
+    # vectors of SYMBOLIC length: the scaled vector is the pointwise map (spec function SCALED, used through its defining property and
+    # one instance of sequence extensionality), the constructor contract does the rest
+    def wf_valid(sh):
+        """representation invariant with validity as the snoc-defined predicate VALID (what the constructor contracts establish)"""
+        if isinstance(sh, Rec):
+            sv = sh.shot_vector
+            return And(valid_seq(sv), VALID(sv.term), slen(sv) >= 1, sh.total_shots == SUM(EXP_S(sv.term)), sh._frozen)
+        return wf(sh)
+    for meth in ("__mul__", "__rmul__"):
+        for lab, kt in (("int", Int), ("float", Float)):
+            contracts.append(FnContract(w, f"Shots.{meth}", [
+                Case(f"finite[any length]*{lab}", {"self": FiniteShots, "scalar": kt}, requires=lambda a: wf(a.self),
+                     ensures=lambda o, r, nw: And(seq_eq(expand(r.shot_vector), expand_sc_of(scaled_of(o.self.shot_vector, o.scalar))),
+                                                  r.total_shots == total(expand_sc_of(scaled_of(o.self.shot_vector, o.scalar)))),
+                     axioms=mul_axioms, raises={"ValueError": some_below_one}, must_return=lambda o: Not(some_below_one(o)))]))
     for lab, kt in (("int", Int), ("float", Float)):
         contracts.append(FnContract(w, "Shots.__mul__", [
             Case(f"analytic*{lab}", {"self": AnalyticShots, "scalar": kt}, ensures=lambda o, r, nw: r is nw.self)]))
